@@ -4,7 +4,7 @@
 `Inc`, `Count`, `EndTime` and the middleware decision, as total functions on a state
 `{reset, counters}`.  Times are integers (ms); `map[string]int` is an association list keyed by the
 address *string* exactly as in the Go code.  White-list blocks are IPv4 CIDR blocks
-`(prefix, bits)`; an address string that is not a dotted quad is never white-listed
+`(prefix, bits)`; an address string that is neither a dotted quad nor an IPv4-mapped IPv6 spelling is never white-listed
 (`net.ParseIP` → nil → `Contains` false).
 -/
 namespace Lim
@@ -123,9 +123,36 @@ def parseV4 (s : String) : Option Nat :=
 def Block.contains (b : Block) (a : Nat) : Bool :=
   a / 2 ^ (32 - b.bits) == b.net / 2 ^ (32 - b.bits)
 
+def hexVal (c : Char) : Option Nat :=
+  if c.isDigit then some (c.toNat - '0'.toNat)
+  else if 'a' ≤ c ∧ c ≤ 'f' then some (c.toNat - 'a'.toNat + 10)
+  else if 'A' ≤ c ∧ c ≤ 'F' then some (c.toNat - 'A'.toNat + 10)
+  else none
+
+/-- one group of an IPv6 address: 1–4 hex digits -/
+def hexGroup (s : String) : Option Nat :=
+  let cs := s.toList
+  if cs.isEmpty ∨ cs.length > 4 then none
+  else cs.foldl (fun acc c => match acc, hexVal c with | some a, some v => some (a * 16 + v) | _, _ => none) (some 0)
+
+/-- the IPv4-mapped IPv6 spellings `::ffff:a.b.c.d` and `::ffff:hhhh:hhhh` (what dual-stack proxies put into
+X-Forwarded-For): `net.ParseIP` yields an address whose `To4()` is the IPv4 address, so `IPNet.Contains` matches it
+against IPv4 blocks.  Other IPv6 spellings of a mapped address are not modelled. -/
+def parseMapped (s : String) : Option Nat :=
+  let cs := s.toList
+  if cs.length > 7 ∧ (String.ofList (cs.take 7)).toLower = "::ffff:" then
+    let rest := String.ofList (cs.drop 7)
+    match parseV4 rest with
+    | some a => some a
+    | none =>
+      match (rest.splitOn ":").map hexGroup with
+      | [some h1, some h2] => some (h1 * 65536 + h2)
+      | _ => none
+  else none
+
 /-- `net.ParseIP` + loop over `cidrBlocks` with `Contains` -/
 def whitelistV4 (blocks : List Block) (ip : String) : Bool :=
-  match parseV4 ip with
+  match (parseV4 ip).orElse (fun _ => parseMapped ip) with
   | some a => blocks.any (·.contains a)
   | none => false
 
